@@ -247,6 +247,10 @@ func sGenSet(T *sim.Tape, allowNoDen bool) *sSet {
 					break // this benchmark was only ever measured on the baseline toolchain
 				}
 				num := mkVals()
+				if T.Intn(40, "non-finite-measurement") == 0 {
+					// a failed run reported as NaN or +Inf: still a measurement of that cell
+					num[T.Intn(nu, "nf-unit")][T.Intn(len(num[0]), "nf-line")] = []float64{math.NaN(), math.Inf(1)}[T.Intn(2, "nf-kind")]
+				}
 				if zeroDen && T.Bool("zero-numerator") {
 					for u := range num {
 						for l := range num[u] {
@@ -269,6 +273,15 @@ func sGenSet(T *sim.Tape, allowNoDen bool) *sSet {
 						s.num[key] = append(s.num[key], num[u][l])
 					}
 					s.results = append(s.results, res)
+					if T.Intn(12, "foreign-role") == 0 {
+						// the same line once more from a toolchain that is neither numerator nor denominator (or spelled
+						// differently): it belongs to no sample
+						twin := sResult{name: bench, cfg: s.cfgFor(e, pi, tab, []string{"tip", "TIP", "base", "BASE", "Other", "Tip2"}[T.Intn(6, "foreign-role-v")], T)}
+						for u := 0; u < nu; u++ {
+							twin.vals = append(twin.vals, benchfmt.Value{Value: num[u][l] * 4096, Unit: sUnits[u]})
+						}
+						s.results = append(s.results, twin)
+					}
 				}
 			}
 			if s.points[pts[0]].noDen {
@@ -348,6 +361,8 @@ func sOpts(withTable bool, warns *[]string) *BuilderOptions {
 	}
 	return o
 }
+
+func sameF(a, b float64) bool { return a == b || (math.IsNaN(a) && math.IsNaN(b)) }
 
 // canonical dump of AllComparisonSeries output
 func sDump(css []*ComparisonSeries, withResidues bool) string {
@@ -736,14 +751,24 @@ func c18Run(t *testing.T, r *sim.Run, tier string) {
 			for bi, bn := range cs.Benchmarks {
 				sum := cs.Summaries[si][bi]
 				sum2 := again[ci].Summaries[si][bi]
-				if sum.Present != sum2.Present || (sum.Present && (sum.Low != sum2.Low || sum.Center != sum2.Center || sum.High != sum2.High)) {
-					r.Fail("bootstrap", "not-reproducible", "summary of %q at %q differs between two builds of the same set: %+v vs %+v", bn, ser, *sum, *sum2)
+				if sum.Present != sum2.Present || (sum.Present && !(sameF(sum.Low, sum2.Low) && sameF(sum.Center, sum2.Center) && sameF(sum.High, sum2.High))) {
+					r.FailNonRepro("bootstrap", "not-reproducible", "summary of %q at %q differs between two builds of the same set: %+v vs %+v", bn, ser, *sum, *sum2)
 				}
 				if !sum.Present {
 					continue
 				}
 				c, _ := cs.ComparisonAt(bn, ser)
 				nv, dv := c.Numerator.Values, c.Denominator.Values
+				nonFinite := false
+				for _, x := range append(append([]float64(nil), nv...), dv...) {
+					if math.IsNaN(x) || math.IsInf(x, 0) {
+						nonFinite = true
+					}
+				}
+				if nonFinite {
+					r.Hit("bootstrap summary of a cell with a non-finite measurement")
+					continue // reproducible (checked above); nothing else is said about such samples
+				}
 				lo, hi := nv[0]/dv[len(dv)-1], nv[len(nv)-1]/dv[0]
 				tol := 1e-12 * hi
 				if !(nv[0] > 0 && dv[0] > 0) {
@@ -878,8 +903,8 @@ func c18Run(t *testing.T, r *sim.Run, tier string) {
 							r.Fail("series", r.Lane+"/concurrent-series-differ", "series computed by task %d concurrently with another caller have a different shape than sequentially", i)
 						}
 						got := cp[ci].Summaries[si][bi]
-						if got.Present != want.Present || got.Low != want.Low || got.Center != want.Center || got.High != want.High {
-							r.Fail("bootstrap", "not-reproducible-under-concurrent-callers", "summary of %q at %q computed by task %d concurrently with another AddSummaries is %+v, sequentially %+v", seq[ci].Benchmarks[bi], seq[ci].Series[si], i, *got, *want)
+						if got.Present != want.Present || !sameF(got.Low, want.Low) || !sameF(got.Center, want.Center) || !sameF(got.High, want.High) {
+							r.FailNonRepro("bootstrap", "not-reproducible-under-concurrent-callers", "summary of %q at %q computed by task %d concurrently with another AddSummaries is %+v, sequentially %+v", seq[ci].Benchmarks[bi], seq[ci].Series[si], i, *got, *want)
 						}
 					}
 				}
